@@ -351,7 +351,9 @@ def save_hdf5(h5path, indent, user_rate, user_name, user_comment, h5mode="a"):
                 elif key in ["preprocessing_options", "method_kws"]:
                     val = json.dumps(val)
                 elif key == "range_x":
-                    val = str(val)
+                    # (plain floats: the representation of numpy scalars,
+                    # "np.float64(...)", cannot be read back)
+                    val = str([float(vv) for vv in val])
                 out.attrs["fit {}".format(key)] = val
 
             out.create_dataset("fit",
